@@ -151,7 +151,7 @@ def step (st : St) (line : String) : St × String :=
           match runActs st as with
           | some st' => k st'
           | none => reject st "step-not-enabled-in-the-model"
-        let cmpRes (t : Tid) (st1 : St) (r : Option (List Tok)) (next : List Act) : St × String :=
+        let cmpRes (_t : Tid) (st1 : St) (r : Option (List Tok)) (next : List Act) : St × String :=
           match runActs st1 next with
           | some st2 =>
             if showRes r == " ".intercalate obs then (st2, "ok")
